@@ -91,7 +91,7 @@ export async function run() {
       if (r.dead || r.panic) return { fsv, crash: r.dead ? "dead:" + r.reason : "panic:" + r.panic.site + ":" + r.panic.msg };
       const bundles = r.obs.filter((o) => o.op === "bundle");
       const fp = r.obs.find((o) => o.op === "fingerprint");
-      return { fsv, fingerprint: JSON.stringify(fp.cache), last: hist.length && hist[hist.length - 1].kind === "rebuild" ? normalise(bundles[bundles.length - 1]) : null };
+      return { fsv, ops, fingerprint: JSON.stringify(fp.cache), last: hist.length && hist[hist.length - 1].kind === "rebuild" ? normalise(bundles[bundles.length - 1]) : null };
     };
     const seen = new Map(); // key -> history
     const start = await replay([]);
@@ -126,7 +126,7 @@ export async function run() {
                     so = JSON.parse(st.last);
                   const kind = `${so.code != null ? "code" : "diagnostics"} after the history, ${fo.code != null ? "code" : "diagnostics"} in a fresh process`;
                   // identity: shortest history reduced to variant kinds of the updates that matter (BFS gives a shortest one first)
-                  rep.violation(`C14 rebuild differs from a fresh process : ${kind} : ${h2.map((x) => (x.kind === "rebuild" ? "rebuild" : x.f.replace(".ts", "") + ":" + x.v.replace(/[12]$/, ""))).join(" ; ")}`, `after ${htxt.join(" ; ")} the session answers ${st.last.slice(0, 160)} but a fresh process on the same contents answers ${f.text.slice(0, 160)}`, { engine: "E-rs", history: htxt, contents: st.fsv, session: so, fresh: fo });
+                  rep.violation(`C14 rebuild differs from a fresh process : ${kind} : ${h2.map((x) => (x.kind === "rebuild" ? "rebuild" : x.f.replace(".ts", "") + ":" + x.v.replace(/[12]$/, ""))).join(" ; ")}`, `after ${htxt.join(" ; ")} the session answers ${st.last.slice(0, 160)} but a fresh process on the same contents answers ${f.text.slice(0, 160)}`, { engine: "E-rs", history: htxt, contents: st.fsv, initial_files: fsText(initialFs()), ops: st.ops.slice(0, -1), current_files: fsText(st.fsv), session: so, fresh: fo });
                 } else outcomes.add(sha(f.text));
               }
               const key = JSON.stringify([st.fsv, st.fingerprint]);
@@ -168,5 +168,21 @@ export async function run() {
     },
     assumptions: ["the in-memory host of compile-worker mirrors ts-node/bundler.ts + commandeer.ts: on change -> updateFileContent(path, new text) -> rebuild", "the only state surviving a call is BUNDLER.files (checked differentially: equal keys never gave different rebuild results)"],
   });
+}
+// re-executes one recorded history without the explorer: the ops in one session, the current contents in a fresh one
+export async function replay(c) {
+  if (!c.ops || !c.initial_files) return null;
+  const pool = new CompilePool({ timeoutMs: 20000, size: 2 });
+  try {
+    const r = await pool.request({ files: c.initial_files, settings: DEFAULT_SETTINGS, ops: c.ops });
+    const f = await pool.request({ files: c.current_files, settings: DEFAULT_SETTINGS, ops: [{ op: "bundle" }] });
+    if (r.dead || r.panic || f.dead || f.panic) return { reproduced: true, observed: { session: r.dead || r.panic, fresh: f.dead || f.panic } };
+    const bundles = r.obs.filter((o) => o.op === "bundle");
+    const session = normalise(bundles[bundles.length - 1]);
+    const fresh = normalise(f.obs.find((o) => o.op === "bundle"));
+    return { reproduced: session !== fresh, observed: { session: JSON.parse(session), fresh: JSON.parse(fresh) } };
+  } finally {
+    pool.close();
+  }
 }
 if (import.meta.url === `file://${process.argv[1]}`) run().then((c) => process.exit(c));
